@@ -1,7 +1,261 @@
+/-
+  C01 — Empty command line reproduces the dataclass defaults at every destination.
+  Theorems about `Model/Defaults` by mutual structural induction over the class tree
+  (any depth, any width, leaves and dataclass-typed members interleaved).
+-/
 import SpVerif.Model.Defaults
 namespace SpVerif.C01
 open SpVerif
 
-theorem placeholder : (IFields.nil).getLeaf [] = none := rfl
+/-- a leaf value survives the trip "wrapper default → argparse default (string defaults go through
+    `type=`) → postprocess" unchanged -/
+def LeafStable (fenv : FEnv) (f : FieldSpec) (v : Val) : Prop :=
+  leafEmpty fenv f (some v) false = .ok v
+
+/-- an Optional member left at None parses back to None (its leaves' own defaults are stable) -/
+def QuietNone (fenv : FEnv) (t : CTree) : Prop :=
+  parseEmptyChild fenv t none .presentNone true true = .ok .nul
+
+/-! "the instance `i` fits the class tree `t`, its leaf values are stable, and every Optional member
+    holding None is quiet" — by mutual recursion on the tree; `whole` is the instance the attribute
+    look-ups go to (field names are looked up by name, as `getattr` does) -/
+mutual
+def FitsStable (fenv : FEnv) : CTree → IVal → Prop
+  | .mk cls fs, .inst cls' ifs => cls = cls' ∧ FitsStableF fenv fs ifs (.inst cls' ifs)
+  | .mk _ _, .nul => False
+def FitsStableF (fenv : FEnv) : CFields → IFields → IVal → Prop
+  | .nil, .nil, _ => True
+  | .leaf f rest, .leaf n v irest, whole =>
+    n = f.name ∧ whole.getLeaf f.name = some v ∧ LeafStable fenv f v ∧ FitsStableF fenv rest irest whole
+  | .child name optional _ t rest, .sub n v irest, whole =>
+    n = name ∧ whole.getSub name = some v ∧
+    (match v with
+     | .nul => optional = true ∧ QuietNone fenv t
+     | .inst c fs => FitsStable fenv t (.inst c fs)) ∧
+    FitsStableF fenv rest irest whole
+  | _, _, _ => False
+end
+
+theorem leafEmpty_opt_irrelevant (fenv : FEnv) (f : FieldSpec) (v : Val) (opt : Bool)
+    (h : leafEmpty fenv f (some v) false = .ok v) : leafEmpty fenv f (some v) opt = .ok v := by
+  unfold leafEmpty at h ⊢
+  simp only at h ⊢
+  split
+  · rename_i hao; rw [hao] at h; exact h
+  · rename_i ao hao
+    rw [hao] at h
+    simp only at h
+    by_cases hr : ao.required = true
+    · simp only [hr, Bool.not_false, Bool.and_self, ↓reduceIte] at h; cases h
+    · have hr' : ao.required = false := by simpa using hr
+      simp only [hr', Bool.false_and, Bool.false_eq_true, ↓reduceIte] at h ⊢
+      exact h
+
+/-- the leaves' wrapper defaults recorded for the Optional rule, when they come from an instance -/
+def instLeafDefaults : CFields → IVal → List (Str × Val)
+  | .nil, _ => []
+  | .leaf f rest, whole =>
+    (f.name, (match whole.getLeaf f.name with | some v => v | none => .sc .none)) :: instLeafDefaults rest whole
+  | .child _ _ _ _ rest, whole => instLeafDefaults rest whole
+
+mutual
+/-- **C01 (caller instance / default-factory instance).** If the wrapper's defaults hold an
+    instance `i` that fits the tree, parsing the empty command line rebuilds exactly `i` — for every
+    nesting depth, for Optional members holding None or an instance, whatever the constructor-chain
+    default `pc` is as long as it does not contradict `i`. -/
+theorem parseEmpty_instance (fenv : FEnv) (t : CTree) (i : IVal) (pc : Option IVal) (opt : Bool)
+    (hpc : pc = none ∨ pc = some i) (h : FitsStable fenv t i) :
+    parseEmpty fenv t pc (.present i) opt = .ok i := by
+  match t, i, h with
+  | .mk cls fs, .inst cls' ifs, h =>
+    obtain ⟨hcls, hf⟩ := h
+    subst hcls
+    simp only [parseEmpty]
+    rw [parseEmptyFields_instance fenv fs ifs (.inst cls ifs) pc opt hpc hf]
+theorem parseEmptyFields_instance (fenv : FEnv) (fs : CFields) (ifs : IFields) (whole : IVal)
+    (pc : Option IVal) (opt : Bool) (hpc : pc = none ∨ pc = some whole)
+    (h : FitsStableF fenv fs ifs whole) :
+    parseEmptyFields fenv fs pc (.present whole) opt = .ok (ifs, instLeafDefaults fs whole) := by
+  match fs, ifs, h with
+  | .nil, .nil, _ => simp [parseEmptyFields, instLeafDefaults]
+  | .leaf f rest, .leaf n v irest, h =>
+    obtain ⟨hn, hget, hst, hrest⟩ := h
+    subst hn
+    simp only [parseEmptyFields, hget]
+    rw [leafEmpty_opt_irrelevant fenv f v opt hst]
+    simp only
+    rw [parseEmptyFields_instance fenv rest irest whole pc opt hpc hrest]
+    simp [instLeafDefaults, hget]
+  | .child name optional dflt t rest, .sub n v irest, h =>
+    obtain ⟨hn, hget, hv, hrest⟩ := h
+    subst hn
+    simp only [parseEmptyFields]
+    match v, hv, hget with
+    | .nul, hv, hget =>
+      obtain ⟨hopt, hq⟩ := hv
+      unfold QuietNone at hq
+      -- the member holds None: both chains say "None", the subtree is quiet
+      rcases hpc with rfl | rfl
+      · simp only [hget, hopt, Bool.or_true, hq]
+        rw [parseEmptyFields_instance fenv rest irest whole none opt (Or.inl rfl) hrest]
+        simp [instLeafDefaults]
+      · simp only [hget, hopt, Bool.or_true, hq]
+        rw [parseEmptyFields_instance fenv rest irest whole (some whole) opt (Or.inr rfl) hrest]
+        simp [instLeafDefaults]
+    | .inst c cfs, hv, hget =>
+      have hchild : ∀ pcC : Option IVal, (pcC = none ∨ pcC = some (.inst c cfs)) →
+          parseEmptyChild fenv t pcC (.present (.inst c cfs)) (opt || optional) optional = .ok (.inst c cfs) :=
+        fun pcC hp => parseEmptyChild_instance fenv t (.inst c cfs) pcC (opt || optional) optional hp hv
+      rcases hpc with rfl | rfl
+      · simp only [hget, hchild none (Or.inl rfl)]
+        rw [parseEmptyFields_instance fenv rest irest whole none opt (Or.inl rfl) hrest]
+        simp [instLeafDefaults]
+      · simp only [hget, hchild _ (Or.inr rfl)]
+        rw [parseEmptyFields_instance fenv rest irest whole (some whole) opt (Or.inr rfl) hrest]
+        simp [instLeafDefaults]
+theorem parseEmptyChild_instance (fenv : FEnv) (t : CTree) (i : IVal) (pc : Option IVal)
+    (optHere optional : Bool) (hpc : pc = none ∨ pc = some i) (h : FitsStable fenv t i) :
+    parseEmptyChild fenv t pc (.present i) optHere optional = .ok i := by
+  match t, i, h with
+  | .mk cls fs, .inst cls' ifs, h =>
+    obtain ⟨hcls, hf⟩ := h
+    subst hcls
+    simp only [parseEmptyChild]
+    rw [parseEmptyFields_instance fenv fs ifs (.inst cls ifs) pc optHere hpc hf]
+    simp
+end
+
+/-- **C01 (caller-supplied default instance).** `add_arguments(C, dest, default=inst)` followed by an
+    empty command line returns an instance equal to `inst`. -/
+theorem c01_caller_default (fenv : FEnv) (t : CTree) (i : IVal) (h : FitsStable fenv t i) :
+    parseEmptyTop fenv t (some i) = .ok i := by
+  simp only [parseEmptyTop]
+  exact parseEmpty_instance fenv t i (some i) false (Or.inr rfl) h
+
+/-! ### without a caller default: the result is what the constructor builds by itself -/
+
+/-- the tree's own defaults are stable (every leaf has a default that survives the trip; members
+    carry an instance-producing factory, or are Optional-with-None and quiet) — stated through the
+    instance the constructor builds -/
+def OwnDefaultsStable (fenv : FEnv) (t : CTree) : Prop :=
+  ∃ i, construct t = .ok i ∧ FitsStable fenv t i
+
+/-- a top-level class whose members are all given by default factories: parsing nothing equals
+    `cls()` as soon as the wrapper sees that default — this is the per-member step the cascade
+    performs (`DataclassWrapper.defaults` = `default_factory()`), lifted to any depth by
+    `parseEmpty_instance`. -/
+theorem c01_member_factory (fenv : FEnv) (t : CTree) (h : OwnDefaultsStable fenv t)
+    (optHere optional : Bool) :
+    ∃ i, construct t = .ok i ∧
+      parseEmptyChild fenv t none (.present i) optHere optional = .ok i := by
+  obtain ⟨i, hc, hf⟩ := h
+  exact ⟨i, hc, parseEmptyChild_instance fenv t i none optHere optional (Or.inl rfl) hf⟩
+
+/-- every field of the class has a default of its own that is stable: leaves survive the trip,
+    dataclass-typed members are `Optional … = None` (and quiet), `default_factory=Cls` (whose own
+    result fits and is stable) or `default_factory=lambda: inst` (idem) -/
+def OwnStable (fenv : FEnv) : CFields → Prop
+  | .nil => True
+  | .leaf f rest => (∃ v, f.default = .value v ∧ leafEmpty fenv f none false = .ok v) ∧ OwnStable fenv rest
+  | .child _ optional dflt t rest =>
+    (match dflt with
+     | .missing => False
+     | .noneVal => optional = true ∧ QuietNone fenv t
+     | .factoryCls => ∃ i, construct t = .ok i ∧ FitsStable fenv t i
+     | .factoryInst i => FitsStable fenv t i) ∧ OwnStable fenv rest
+
+theorem parseEmptyFields_own (fenv : FEnv) (fs : CFields) (h : OwnStable fenv fs) :
+    ∃ r ds, constructFields fs = .ok r ∧ parseEmptyFields fenv fs none .absent false = .ok (r, ds) := by
+  match fs, h with
+  | .nil, _ => exact ⟨.nil, [], rfl, rfl⟩
+  | .leaf f rest, h =>
+    obtain ⟨⟨v, hd, hl⟩, hrest⟩ := h
+    obtain ⟨r, ds, hc, hp⟩ := parseEmptyFields_own fenv rest hrest
+    refine ⟨.leaf f.name v r, (f.name, defaultVal f.default) :: ds, ?_, ?_⟩
+    · simp [constructFields, hd, hc]
+    · simp [parseEmptyFields, hl, hp]
+  | .child name optional dflt t rest, h =>
+    obtain ⟨hd, hrest⟩ := h
+    obtain ⟨r, ds, hc, hp⟩ := parseEmptyFields_own fenv rest hrest
+    cases dflt with
+    | missing => exact absurd hd id
+    | noneVal =>
+      obtain ⟨hopt, hq⟩ := hd
+      unfold QuietNone at hq
+      refine ⟨.sub name .nul r, ds, ?_, ?_⟩
+      · simp [constructFields, hc]
+      · simp [parseEmptyFields, hopt, hq, hp]
+    | factoryCls =>
+      obtain ⟨i, hci, hfit⟩ := hd
+      refine ⟨.sub name i r, ds, ?_, ?_⟩
+      · simp [constructFields, hci, hc]
+      · simp only [parseEmptyFields, hci]
+        rw [parseEmptyChild_instance fenv t i none (false || optional) optional (Or.inl rfl) hfit]
+        simp [hp]
+    | factoryInst i =>
+      refine ⟨.sub name i r, ds, ?_, ?_⟩
+      · simp [constructFields, hc]
+      · simp only [parseEmptyFields]
+        rw [parseEmptyChild_instance fenv t i none (false || optional) optional (Or.inl rfl) hd]
+        simp [hp]
+
+/-- **C01 (no caller default).** For a class all of whose fields carry stable defaults of their
+    own — at any depth, through `default_factory` members and Optional members — parsing the empty
+    command line yields exactly what the dataclass constructor produces by itself. -/
+theorem c01_no_caller (fenv : FEnv) (cls : Str) (fs : CFields) (h : OwnStable fenv fs) :
+    ∃ i, construct (.mk cls fs) = .ok i ∧ parseEmptyTop fenv (.mk cls fs) none = .ok i := by
+  obtain ⟨r, ds, hc, hp⟩ := parseEmptyFields_own fenv fs h
+  exact ⟨.inst cls r, by simp [construct, hc], by simp [parseEmptyTop, parseEmpty, hp]⟩
+
+/-! ### kept visible: a Union-typed leaf with a convertible string default is NOT stable -/
+
+def unionLeaf : FieldSpec :=
+  { name := "u".toList, ty := { inner := .sc (.union [.float, .str]), optional := false },
+    default := .value (.sc (.str "0".toList)) }
+
+/-- the full statement "every well-typed default is stable" … -/
+def AllDefaultsStable : Prop :=
+  ∀ (fenv : FEnv) (f : FieldSpec) (v : Val), f.default = .value v → LeafStable fenv f v
+
+/-- … is false: `Union[float, str] = "0"` comes back as `0.0` (open finding
+    C01-union-str-default-converted) -/
+theorem c01_union_default_witness : ¬ AllDefaultsStable := by
+  intro h
+  have := h [("0".toList, some "0.0".toList)] unionLeaf (.sc (.str "0".toList)) rfl
+  have h2 : leafEmpty [("0".toList, some "0.0".toList)] unionLeaf (some (.sc (.str "0".toList))) false =
+      .ok (.sc (.float "0.0".toList)) := by rfl
+  unfold LeafStable at this
+  rw [h2] at this
+  injection this with h3
+  injection h3 with h4
+  cases h4
+
+/-! ### stability of ordinary leaves (sufficient conditions) -/
+
+/-- a non-optional `int` / `float` / `bool`-free plain leaf holding a non-string value is stable -/
+theorem stable_plain_nonstring (fenv : FEnv) (name : Str) (b : BTy) (v : Scalar)
+    (hb : b = .int ∨ b = .float) (hv : ∀ s, v ≠ .str s) (hn : v ≠ .none) :
+    LeafStable fenv { name := name, ty := { inner := .sc (.base b), optional := false },
+                      default := .value (.sc v) } (.sc v) := by
+  unfold LeafStable leafEmpty
+  rcases hb with rfl | rfl <;>
+  · cases v <;> simp_all [argOptions, defaultVal, postprocess, bconvOf]
+
+/-! non-vacuity: a two-level tree with an Optional member, a caller instance that fits it -/
+def demoTree : CTree :=
+  .mk "K0".toList
+    (.leaf { name := "a".toList, ty := { inner := .sc (.base .int), optional := false },
+             default := .value (.sc (.int 1)) }
+    (.child "o".toList true .noneVal
+      (.mk "K1".toList (.leaf { name := "x".toList, ty := { inner := .sc (.base .int), optional := false },
+                                default := .value (.sc (.int 5)) } .nil))
+    .nil))
+
+def demoInst : IVal :=
+  .inst "K0".toList (.leaf "a".toList (.sc (.int 7))
+    (.sub "o".toList (.inst "K1".toList (.leaf "x".toList (.sc (.int 9)) .nil)) .nil))
+
+example : parseEmptyTop [] demoTree (some demoInst) = .ok demoInst := by rfl
+example : parseEmptyTop [] demoTree none = construct demoTree := by rfl
 
 end SpVerif.C01
